@@ -584,17 +584,36 @@ let segments (impl : string list) : string list list =
 
 let is_setup_error seg = match seg with "setup-error" :: _ -> true | _ -> false
 
+(* a caller holding rows built for another marker, anywhere in a history (also after a close) *)
+let misdelivery_anywhere (seg : string list) : string option =
+  match List.find_opt (starts_with "T=") seg with
+  | None -> None
+  | Some t ->
+    let toks = String.split_on_char ',' (String.sub t 2 (String.length t - 2)) in
+    List.find_opt (fun t -> match parse_event t with
+        | Ev (EDone (m, ORows m')) -> m <> m'
+        | _ -> false) toks
+
+(* an attempt that is not the scenario's last word (it missed its window and another attempt
+   followed): its history is judged all the same -- every `viol` reports -- but it may have completed
+   nothing, and its connection may have been ended by the orphaner (a late attempt aborts all its
+   callers at once: more than 1024 ids orphaned for over 1 s is a legitimate TooManyOrphanedStreamIds) *)
+let earlier_attempt_ok (seg : string list) : string option =
+  match misdelivery_anywhere seg with
+  | Some t -> Some ("viol caller-got-a-response-not-sent-for-it event=" ^ t)
+  | None ->
+    (match verdict_e2e_base seg with
+     | "ok" -> None
+     | v when starts_with "diff connection-closed-unexpectedly" v || starts_with "diff unexpected-error-outcome" v
+              || starts_with "diff nothing-judged" v -> None
+     | v -> Some v)
+
 let verdict_e2e impl =
   let rec all = function
     | [] -> "ok"
     | [seg] when is_setup_error seg -> "ok notrun " ^ String.concat " " seg
     | [seg] -> verdict_e2e_base seg
-    | seg :: r ->
-      (* an earlier attempt that missed its window: judged, but it may have completed nothing *)
-      (match verdict_e2e_base seg with
-       | "ok" -> all r
-       | v when starts_with "diff nothing-judged" v -> all r
-       | v -> v) in
+    | seg :: r -> (match earlier_attempt_ok seg with None -> all r | Some v -> v) in
   all (segments impl)
 
 let verdict_threshold_all case impl =
@@ -602,14 +621,7 @@ let verdict_threshold_all case impl =
   let rec go = function
     | [] -> "error empty-K"
     | [last] -> if is_setup_error last then "ok notrun " ^ String.concat " " last else verdict_threshold case last
-    | seg :: r ->
-      (* an earlier attempt that missed its window (frames late, no tick in time, or the tick fell
-         into the release): its history up to a close must be clean all the same *)
-      (match verdict_e2e_base seg with
-       | "ok" -> go r
-       | v when starts_with "diff connection-closed-unexpectedly" v || starts_with "diff unexpected-error-outcome" v
-                || starts_with "diff nothing-judged" v -> go r
-       | v -> v) in
+    | seg :: r -> (match earlier_attempt_ok seg with None -> go r | Some v -> v) in
   go segs
 
 let verdict case impl =
